@@ -261,7 +261,19 @@ func main() {
 			r = "/repo"
 		}
 		repoRoot = r
-		m, err := loadModule(r, flag.Arg(1), nil)
+		var dov map[string][]byte
+		if overlayJSON != "" {
+			dov = map[string][]byte{}
+			var mm map[string]string
+			if b, err := os.ReadFile(overlayJSON); err == nil && json.Unmarshal(b, &mm) == nil {
+				for k, v := range mm {
+					if c, err := os.ReadFile(v); err == nil {
+						dov[k] = c
+					}
+				}
+			}
+		}
+		m, err := loadModule(r, flag.Arg(1), dov)
 		if err != nil {
 			fmt.Fprintln(os.Stderr, err)
 			os.Exit(2)
